@@ -1,13 +1,13 @@
 (* C23 — zone files parse to exactly the records they describe.
    Spec/ZfRenderS.v is an independent renderer: abstract lines (records, $ORIGIN, $TTL, blank/comment lines)
-   plus a `choices` value per line fixing the presentation completely; [file_ok] says when the choices are
+   plus a `choices` value per line fixing the presentation completely ($INCLUDE lines too: they are reported); [file_ok] says when the choices are
    legal, [render] gives the octets, [number_lines] the denoted records with their line numbers.
    The theorems go bottom-up (tokens, field navigation, one line, whole files); every proof is
    [exact <lemma>].  [runs T m s b b' v] (Proofs/ZfRunP.v) reads: on ANY reader state whose unconsumed input
    is s ++ t with T t, parenthesis state b, the parser action m returns v, consumes exactly s, ends in
    parenthesis state b' and has advanced the line counter by the number of LF octets in s.
-   Not covered by the renderer (docs/C23.md): $INCLUDE lines, the "::" and embedded IPv4 forms of IPv6 text,
-   a raw CR inside an unquoted token.  The WKS bit map uses the implementation's bit order (finding 3). *)
+   Not covered by the renderer (docs/C23.md): the "::" and embedded IPv4 forms of IPv6 text, a raw CR inside an
+   unquoted token.  The WKS bit map uses the implementation's bit order (finding 3). *)
 From QV Require Import Base.ListX Model.NameWire Spec.NameRepr Model.ZfStd Model.ZfReader Model.ZfParser
   Spec.ZfValidS Spec.ZfRenderS Proofs.ZfReaderP Proofs.ZfFieldsP Proofs.ZfRunP Proofs.ZfTokP Proofs.ZfNameRP Proofs.ZfSymP
   Proofs.ZfAddrP Proofs.ZfRecRP Proofs.ZfLineRP.
@@ -93,18 +93,20 @@ Theorem c23_record_line : forall x rc r t rd0, sctx_good x -> record_ok x rc r =
               post rd0 rd1 (render_record rc r) t false.
 Proof. exact record_line_parses. Qed.
 
-(* any line: records, blank / comment lines, $ORIGIN, $TTL (directive names in any letter case) *)
+(* any line: records, blank / comment lines, $ORIGIN, $TTL, $INCLUDE file [origin] (directive names in any
+   letter case, file names quoted or not with any escapes): what is yielded ([line_item]: the record, or the
+   $INCLUDE with the origin to use) and the new context *)
 Theorem c23_line : forall x l t rd0, sctx_good x -> line_ok x l = true ->
   r_rest rd0 = render_line l ++ t -> r_paren rd0 = false -> wfr rd0 -> eoft (e_term (line_end l)) t ->
   exists rd1, parse_line (ctx_of x) rd0 =
-                Ok ((match l with LRecord _ r => Some (item_of (p_line (r_pos rd0)) r) | _ => None end, ctx_of (after_line x l)), rd1) /\
+                Ok ((option_map (line_of (p_line (r_pos rd0))) (line_item x l), ctx_of (after_line x l)), rd1) /\
               post rd0 rd1 (render_line l) t false.
 Proof. exact line_parses. Qed.
 
 (* ---- stage 4: whole files ----------------------------------------------------------------------------------------------------------- *)
 
-(* every rendered file parses to exactly the records it denotes, in order, each with the number of the line
-   it starts on (1 + the LF octets before it), and to nothing else (no error item) *)
+(* every rendered file parses to exactly the records (and $INCLUDE directives) it denotes, in order, each with
+   the number of the line it starts on (1 + the LF octets before it), and to nothing else (no error item) *)
 Theorem c23_file_roundtrip : forall ls, file_ok sctx0 ls = true ->
   exists p, parse_all (render ls) = Ok (items_of (number_lines ls), p).
 Proof. exact file_roundtrip. Qed.
@@ -127,6 +129,7 @@ Definition l_www : label := [119;119;119].
     txt "a b"x\059y
    ; x
    www 300 iN A 192.0.2.1<CRLF>
+   $iNCLUDE <quote>a\<quote>b<quote> ns
    www.ex\097mple. CLASS1 tYPE99 \# 3 0102 ab<end of file> *)
 Definition ex_lines : list aline :=
   [ LOrigin [] sp (NAbs [raws]) [l_example] eol_lf;
@@ -147,6 +150,7 @@ Definition ex_lines : list aline :=
     LRecord (mkRc sep_none (Some (NRel 1 [raws], sp)) (TcTC 300 i_plain sp (SymMnemonic [true]) sp) (SymMnemonic [])
                (DFields [(sp, CPlain)]) (mkEol sep_none (TNl true)))
             (mkArec [l_www; l_example] 300 1 1 (AFields [VIp4 192 0 2 1]));
+    LInclude [true; true] sp (SQuoted [ERaw; EChar; ERaw]) [97; 34; 98] (Some (sp, NRel 1 [raws], [l_ns; l_example])) eol_lf;
     LRecord (mkRc sep_none (Some (NAbs [raws; [ERaw; ERaw; EDec; ERaw; ERaw; ERaw; ERaw]], sp)) (TcC (SymNumeric [] i_plain) sp) (SymNumeric [true] i_plain)
                (DGeneric sp sp i_plain [(Some sp, false, true); (None, false, false); (Some sp, false, false)])
                (mkEol sep_none TEof))
@@ -164,13 +168,14 @@ Example c23_example_text : render ex_lines =
    32;116;120;116;32;34;97;32;98;34;120;92;48;53;57;121;10;
    59;32;120;10;
    119;119;119;32;51;48;48;32;105;78;32;65;32;49;57;50;46;48;46;50;46;49;13;10;
+   36;105;78;67;76;85;68;69;32;34;97;92;34;98;34;32;110;115;10;
    119;119;119;46;101;120;92;48;57;55;109;112;108;101;46;32;67;76;65;83;83;49;32;116;89;80;69;57;57;32;92;35;32;51;32;48;49;48;50;32;97;98].
 Proof. vm_compute. reflexivity. Qed.
 
-Example c23_example_lines : map fst (number_lines ex_lines) = [3; 6; 8; 9].
+Example c23_example_lines : map fst (number_lines ex_lines) = [3; 6; 8; 9; 10].
 Proof. vm_compute. reflexivity. Qed.
 
-(* the instance of the file theorem: four records, at lines 3, 6, 8 and 9 *)
+(* the instance of the file theorem: records at lines 3, 6, 8 and 10, an $INCLUDE at line 9 *)
 Example c23_example_parse : exists p, parse_all (render ex_lines) = Ok (items_of (number_lines ex_lines), p).
 Proof. exact (c23_file_roundtrip ex_lines c23_example_ok). Qed.
 
